@@ -113,6 +113,18 @@ per_count("setopt_str", counts_quick=(0, 1, 2), counts_thorough=(0, 1, 2), entry
 U("setopt_args", entry="h_setopt_args", func="cfg_setopt", harness="harness/setopt_arms.c", defs={"quick": ["-DNV=2"]}, cbmc=unw(6) + OOM,
   label="proof (loop-free paths: argument validation)", props=["C09", "C10", "C02"], cost=5, **CF)
 
+# ------------------------------------------------------------------ sections
+SECC = dict(remove=["cfg_free", "cfg_dupopt_array", "cfg_init_defaults"], carriers=["carriers/cfg_free.c", "carriers/cfg_dupopt_array.c", "carriers/cfg_init_defaults.c"])
+SECTXT = "7 literal option flag words (MULTI/TITLE/NO_TITLE_DUPES/NOCASE/KEYSTRVAL/DEFINIT) x 2 context flag words; titles 1 byte over all bytes"
+per_count("setopt_sec", counts_quick=(0, 1, 2), counts_thorough=(0, 1, 2), entry="h_setopt_sec", func="cfg_setopt", harness="harness/sections.c",
+          cbmc=unw(8) + OOM, label="section arm; " + SECTXT + "; any allocation may fail", props=["C01", "C09", "C10", "C07", "C16", "C18", "C06", "C12", "C02"], cost=60, **SECC)
+per_count("gettsec", counts_quick=(0, 1, 2), counts_thorough=(0, 1, 2, 3), entry="h_gettsec", func="cfg_opt_gettsecidx, cfg_opt_gettsec", harness="harness/sections.c",
+          cbmc=unw(8), label=SECTXT, props=["C09", "C11", "C02"], cost=20, **SECC)
+per_count("rmnsec", counts_quick=(0, 1, 2), counts_thorough=(0, 1, 2, 3), entry="h_rmnsec", func="cfg_opt_rmnsec", harness="harness/sections.c",
+          cbmc=unw(8) + LEAK, label=SECTXT + "; index 0,1,2,7", props=["C09", "C10", "C07", "C02"], cost=30, **SECC)
+per_count("rmtsec", counts_quick=(0, 1, 2), counts_thorough=(0, 1, 2, 3), entry="h_rmtsec", func="cfg_opt_rmtsec", harness="harness/sections.c",
+          cbmc=unw(8), label=SECTXT, props=["C09", "C10", "C07", "C02"], cost=30, **SECC)
+
 # ------------------------------------------------------------------ per-property text for MANIFEST / evidence
 HOOK_COMMITS = []
 NOT_APPLICABLE = {}
